@@ -330,6 +330,17 @@ def c18(ctx):
                       "non-trivial = a document outside the language")
 
 
+@check("C19")
+def c19(ctx):
+    ctx.assumptions += ["relational part: both sides are real servers (long-lived vs fresh); Lsp.tla supplies which text each reply must come from",
+                        "stdout of the server is captured to read its publishDiagnostics notifications; symbol lists and diagnostic lists are compared as sets",
+                        "navigation: the token table comes from Syntax.tla; positions at the end of a token are don't-care"]
+    front.c19(ctx)
+    return ctx.finish("model_checking", "exhaustive: every well-formed history of the bound of Lsp_<tier>.cfg (2 URIs x 3 texts x 2 probe positions, single and double content changes) "
+                      "plus random histories of length 12 over 3 URIs; navigation: every cursor position of generated scripts and their name edits; "
+                      "one evaluation = one reply compared; non-trivial = a query on an opened document resp. a position with a hover")
+
+
 def replay(path):
     rp = json.load(open(path))
     prop = rp.get("property", "C00")
@@ -363,6 +374,14 @@ def replay(path):
             return CHECKS["C11"](c)
         if rp["kind"] in ("front", "diag", "nav", "c17"):
             hits = front.confirm_front(ctx, rp)
+            print(json.dumps(rp.get("observed_again"), indent=1)[:3000])
+            if hits:
+                print("VIOLATION property=%s replay=%s" % (prop, path))
+                return 1
+            print("not reproduced")
+            return 0
+        if rp["kind"] == "generic":
+            hits = front.rerun_generic(ctx, rp)
             print(json.dumps(rp.get("observed_again"), indent=1)[:3000])
             if hits:
                 print("VIOLATION property=%s replay=%s" % (prop, path))
